@@ -64,7 +64,7 @@ theorem Snap.ext {rank R b w w' f r} (hs : Snap w R f r) (h : CkExt rank R b w w
 /-- What a non-clean verdict may have done to the record of the file itself. -/
 def OwnRel (w w' : World) (f : Nat) : Prop :=
   w'.recs f = w.recs f ∨
-  (w'.recs f = { w.recs f with isGenerated := false, failed := some 0 } ∧ w.fs f = none)
+  (w'.recs f = { w.recs f with isGenerated := false, isOverride := false, failed := some 0 } ∧ w.fs f = none)
 
 def ChkPost (rank : Nat → Nat) (X : Nat → Prop) (R mx f : Nat) (w : World) (res : DR × World × List Nat) : Prop :=
   Inv rank R X res.2.1 ∧ DExt rank R (rank f + 1) w res.2.1 ∧ (∀ ts, res.1 ≠ .need ts) ∧
